@@ -325,6 +325,8 @@ def const(node, env=None):
             and norm(node.func.value) in ('bytearray', 'bytes'):
         return bytearray.fromhex(const(node.args[0], env))
     if isinstance(node, ast.Subscript):
+        if env and norm(node) in env:
+            return env[norm(node)]      # case analysis over an element the rule enumerates, e.g. {'frame[1]': 7}
         v = const(node.value, env)
         if isinstance(node.slice, ast.Slice):
             lo = const(node.slice.lower, env) if node.slice.lower else None
